@@ -43,6 +43,10 @@ def streams(tier, rng, P, only=None, cases=None):
             nm = rng.choice(cmd_names)
             srcs.append(rng.choice(["Function %s(N){ Result = N + 12 } Int K = %s(48) n(K)", "FUNCTION %s(N){ RETURN(N+1) } PRINT(%s(2)) c",
                                     "Int %s=3; PRINT(%s) c", "STR %s={c d}; %s e"]) % (nm, nm))
+        # every command directly after an IF block (where the lexer looks for ELSE): the same tokens in every compilation
+        for _ in range(150 if big else 45):
+            nm = rng.choice([n_ for n_ in cmd_names if n_.upper() not in ("END", "INCLUDE", "ELSE", "PLAY", "FUNCTION", "WHILE", "FOR", "IF", "RETURN", "BREAK", "CONTINUE")])
+            srcs.append(rng.choice(["o5 IF(1==1){ c } %s(100) d", "IF(0){ c } %s(1) e", "IF(1){ d }\n%s(64) c", "INT Q=1 IF(Q){ e } %s=5; g"]) % nm)
         # … and so must parameters and local variables of a user function that are named like commands
         for _ in range(40 if big else 10):
             a, b, c3 = rng.choice(cmd_names), rng.choice(cmd_names), rng.choice(cmd_names)
